@@ -1,0 +1,11 @@
+//go:build verif
+
+package peermanager
+
+// VerifLockTable and VerifUnlockTable let the verification harness hold the process table's write
+// lock while it starts concurrent callers, so that it can force the interleaving in which several
+// GetProcess calls all miss their read-locked lookup before any of them creates a process.
+func (pm *PeerManager) VerifLockTable() { pm.peerProcessesLk.Lock() }
+
+// VerifUnlockTable releases the lock taken by VerifLockTable.
+func (pm *PeerManager) VerifUnlockTable() { pm.peerProcessesLk.Unlock() }
